@@ -50,11 +50,13 @@ func evalC03(op string, args []string) string {
 		}
 		return "ok " + hx(w)
 	case "authresp":
-		priorVariants([][]byte{unhx(args[0]), unhx(args[1]), unhx(args[2])}, func(v [][]byte) { radius.IsAuthenticResponse(v[0], v[1], v[2]) })
-		return boolStr(radius.IsAuthenticResponse(unhx(args[0]), unhx(args[1]), unhx(args[2])))
+		a0, a1, a2 := unhx(args[0]), unhx(args[1]), unhx(args[2])
+		priorVariants([][]byte{a0, a1, a2}, func(v [][]byte) { radius.IsAuthenticResponse(v[0], v[1], v[2]) })
+		return boolStr(radius.IsAuthenticResponse(a0, a1, a2))
 	case "authreq":
-		priorVariants([][]byte{unhx(args[0]), unhx(args[1])}, func(v [][]byte) { radius.IsAuthenticRequest(v[0], v[1]) })
-		return boolStr(radius.IsAuthenticRequest(unhx(args[0]), unhx(args[1])))
+		a0, a1 := unhx(args[0]), unhx(args[1])
+		priorVariants([][]byte{a0, a1}, func(v [][]byte) { radius.IsAuthenticRequest(v[0], v[1]) })
+		return boolStr(radius.IsAuthenticRequest(a0, a1))
 	case "exchange":
 		req := mkPacket(args[0], args[1], args[2], args[3], args[4])
 		rw, err := req.Encode()
@@ -119,6 +121,11 @@ func evalC03(op string, args []string) string {
 			return "BAD-CASE"
 		}
 		st := &scriptedReader{g: NewGen(uint64(n*1000 + failAt + 7)), failAt: failAt}
+		if failAt < 0 {
+			// failAt = -k: the source never fails but delivers at most k octets per Read (an io.Reader may return
+			// fewer octets than asked, without an error): what was not delivered must be asked for again
+			st.failAt, st.chunk = 0, -failAt
+		}
 		old := crand.Reader
 		crand.Reader = st
 		defer func() { crand.Reader = old }()
@@ -152,12 +159,16 @@ type scriptedReader struct {
 	rec    []byte
 	reads  int
 	failAt int
+	chunk  int
 }
 
 func (r *scriptedReader) Read(p []byte) (int, error) {
 	r.reads++
 	if r.reads == r.failAt {
 		return 0, errors.New("entropy source failed")
+	}
+	if r.chunk > 0 && len(p) > r.chunk {
+		p = p[:r.chunk]
 	}
 	for i := range p {
 		p[i] = byte(r.g.U64())
@@ -320,7 +331,7 @@ func genC03(g *Gen, tier string, emit func(op string, args ...string)) {
 		}
 	}
 	// New against a scripted entropy stream, with and without a failing Read
-	for _, nf := range [][2]int{{40, 0}, {200, 0}, {150, 1}, {150, 2}, {150, 3}, {200, 65}, {200, 66}, {300, 129}, {10, 5}} {
+	for _, nf := range [][2]int{{40, 0}, {200, 0}, {150, 1}, {150, 2}, {150, 3}, {200, 65}, {200, 66}, {300, 129}, {10, 5}, {60, -1}, {60, -5}, {60, -16}, {60, -17}} {
 		emit("newstream", itoa(nf[0]), itoa(nf[1]))
 	}
 	// long secrets and datagrams near the size limit (the hash must cover all of both)
